@@ -40,7 +40,7 @@ func init() {
 				return 400_000
 			}, Run: c04Program,
 				Min: map[string]int64{"paths": 100000, "flat": 10000, "gradient_linear": 1000, "gradient_radial": 1000, "skip_transparent": 1000, "skip_non-premultiplied": 1000, "skip_lod": 1000,
-					"skip_stop-not-premultiplied": 100, "skip_stop-offset-out-of-range": 100, "skip_stop-offsets-not-increasing": 100, "paths_after_skipped_path": 1000, "wrapped_stop_registers": 100, "selector_wraps": 1000, "rectangle_set_again_after_reset": 10000}},
+					"skip_stop-not-premultiplied": 100, "skip_stop-offset-out-of-range": 100, "skip_stop-offsets-not-increasing": 100, "paths_after_skipped_path": 1000, "wrapped_stop_registers": 100, "selector_wraps": 1000, "rectangle_set_again_after_reset": 10000, "renderer_value_copied": 10000, "through_destination_logger": 10000}},
 			{Name: "via-decoder", N: func(t string) uint64 {
 				if t == "thorough" {
 					return 10_000_000
@@ -279,6 +279,12 @@ func c04Program(c *run.Ctx, idx uint64) {
 	dst, logged := viaLogger(r, 8, &z)
 	if logged {
 		c.Count("through_destination_logger", 1)
+	}
+	if !logged && r.Chance(1, 8) {
+		// the configured Renderer value is copied and the copy does the work
+		zc := z
+		dst = &zc
+		c.Count("renderer_value_copied", 1)
 	}
 	c04Feed(c, dst, rz, vm, cfg, ops, "direct")
 }
